@@ -39,11 +39,12 @@ type pfState struct {
 	lenGE  map[string][]lin  // len(key) >= each bound
 	nonNil map[string]bool   // value at key is not nil
 	dyn    map[string]string // interface value at key has this dynamic type
+	eq     map[string]string // integer-typed value at key equals this constant / caller term
 	dead   bool              // unreachable (pruned)
 }
 
 func newState() *pfState {
-	return &pfState{lenGE: map[string][]lin{}, nonNil: map[string]bool{}, dyn: map[string]string{}}
+	return &pfState{lenGE: map[string][]lin{}, nonNil: map[string]bool{}, dyn: map[string]string{}, eq: map[string]string{}}
 }
 
 func (s *pfState) clone() *pfState {
@@ -57,6 +58,9 @@ func (s *pfState) clone() *pfState {
 	}
 	for k, v := range s.dyn {
 		o.dyn[k] = v
+	}
+	for k, v := range s.eq {
+		o.eq[k] = v
 	}
 	return o
 }
@@ -111,6 +115,11 @@ func meet(a, b *pfState) *pfState {
 			o.dyn[k] = v
 		}
 	}
+	for k, v := range a.eq {
+		if b.eq[k] == v {
+			o.eq[k] = v
+		}
+	}
 	return o
 }
 
@@ -118,8 +127,13 @@ func (s *pfState) equal(o *pfState) bool {
 	if s == nil || o == nil {
 		return s == o
 	}
-	if s.dead != o.dead || len(s.lenGE) != len(o.lenGE) || len(s.nonNil) != len(o.nonNil) || len(s.dyn) != len(o.dyn) {
+	if s.dead != o.dead || len(s.lenGE) != len(o.lenGE) || len(s.nonNil) != len(o.nonNil) || len(s.dyn) != len(o.dyn) || len(s.eq) != len(o.eq) {
 		return false
+	}
+	for k, v := range s.eq {
+		if o.eq[k] != v {
+			return false
+		}
 	}
 	for k, v := range s.lenGE {
 		w := o.lenGE[k]
@@ -171,6 +185,11 @@ func (s *pfState) killField(name string, keepLen bool) {
 	for k := range s.dyn {
 		if has(k) {
 			delete(s.dyn, k)
+		}
+	}
+	for k := range s.eq {
+		if has(k) {
+			delete(s.eq, k)
 		}
 	}
 }
@@ -438,13 +457,26 @@ func nonNegValue(v ssa.Value, seen map[ssa.Value]bool) bool {
 // ---------------------------------------------------------------- function analysis
 
 type pfRun struct {
-	e     *pfEngine
-	fn    *ssa.Function
-	ctx   *optCtx
-	in    map[*ssa.BasicBlock]*pfState
-	optsV map[ssa.Value]bool // values that denote the options struct (getter result / its local copy)
-	check bool
-	entry *pfState
+	e        *pfEngine
+	fn       *ssa.Function
+	ctx      *optCtx
+	in       map[*ssa.BasicBlock]*pfState
+	optsV    map[ssa.Value]bool // values that denote the options struct (getter result / its local copy)
+	check    bool
+	entry    *pfState
+	liveEdge map[[2]*ssa.BasicBlock]bool // CFG edges that can be taken under the option context
+	phiAlias map[*ssa.Phi]ssa.Value      // phis with a single live incoming edge
+}
+
+// key is the access-path key of a value; under an option context a phi with
+// exactly one live incoming edge denotes that operand.
+func (r *pfRun) key(v ssa.Value) string {
+	if len(r.phiAlias) > 0 {
+		old := an.PhiHook
+		an.PhiHook = func(p *ssa.Phi) ssa.Value { return r.phiAlias[p] }
+		defer func() { an.PhiHook = old }()
+	}
+	return an.Path(v)
 }
 
 func (e *pfEngine) analyse(fn *ssa.Function, ctx *optCtx, entry *pfState, check bool) *pfRun {
@@ -547,7 +579,7 @@ func (r *pfRun) evalInt(v ssa.Value, st *pfState) lin {
 		return lin{"", k, true}
 	}
 	if isRangeIndex(v) {
-		return lin{r.e.key(v), 0, true}
+		return lin{r.key(v), 0, true}
 	}
 	switch x := v.(type) {
 	case *ssa.BinOp:
@@ -572,7 +604,7 @@ func (r *pfRun) evalInt(v ssa.Value, st *pfState) lin {
 		}
 	case *ssa.Call:
 		if b, ok := x.Common().Value.(*ssa.Builtin); ok && b.Name() == "len" {
-			return lin{"len:" + r.e.key(x.Common().Args[0]), 0, true}
+			return lin{"len:" + r.key(x.Common().Args[0]), 0, true}
 		}
 	case *ssa.UnOp:
 		if x.Op == token.MUL {
@@ -601,7 +633,7 @@ func (r *pfRun) evalInt(v ssa.Value, st *pfState) lin {
 	if sv != v {
 		return r.evalInt(sv, st)
 	}
-	return lin{r.e.key(v), 0, nonNegValue(v, nil)}
+	return lin{r.key(v), 0, nonNegValue(v, nil)}
 }
 
 // knownNil evaluates `x` (pointer/interface) under the option context:
@@ -652,7 +684,7 @@ func (r *pfRun) applyCond(st *pfState, cond ssa.Value, truth bool) bool {
 			if base, name, ok := an.LoadField(x); ok && truth {
 				if nt := an.StructOf(base.Type()); nt != nil {
 					if ff := r.e.flagFacts[nt.Obj().Name()+"."+name]; ff != nil {
-						r.instantiate(st, ff, map[string]string{"$recv": r.e.key(base)})
+						r.instantiate(st, ff, map[string]string{"$recv": r.key(base)})
 					}
 				}
 			}
@@ -660,7 +692,7 @@ func (r *pfRun) applyCond(st *pfState, cond ssa.Value, truth bool) bool {
 	case *ssa.Extract:
 		if x.Index == 1 {
 			if ta, ok := x.Tuple.(*ssa.TypeAssert); ok && ta.CommaOk && truth {
-				st.dyn[r.e.key(ta.X)] = types.TypeString(ta.AssertedType, nil)
+				st.dyn[r.key(ta.X)] = types.TypeString(ta.AssertedType, nil)
 			}
 		}
 	case *ssa.BinOp:
@@ -682,7 +714,7 @@ func (r *pfRun) applyCond(st *pfState, cond ssa.Value, truth bool) bool {
 				r.applySummary(st, call)
 			}
 			if !isNilNow {
-				st.nonNil[r.e.key(y)] = true
+				st.nonNil[r.key(y)] = true
 			}
 			return true
 		}
@@ -805,9 +837,9 @@ func (r *pfRun) transfer(b *ssa.BasicBlock, st *pfState, check bool) []*pfState 
 				lo, okLo = an.IntConst(x.Low)
 			}
 			if okLo && x.High == nil {
-				for _, l := range st.lenGE[r.e.key(x.X)] {
+				for _, l := range st.lenGE[r.key(x.X)] {
 					if l.base == "" {
-						st.addLen(r.e.key(x), lin{"", l.off - lo, true})
+						st.addLen(r.key(x), lin{"", l.off - lo, true})
 					}
 				}
 			}
@@ -843,7 +875,7 @@ func (r *pfRun) doStore(x *ssa.Store, st *pfState) {
 		if call, ok := x.Val.(*ssa.Call); ok {
 			if b, ok := call.Common().Value.(*ssa.Builtin); ok && b.Name() == "append" {
 				if ld, ok := call.Common().Args[0].(*ssa.UnOp); ok && ld.Op == token.MUL {
-					if fa2, ok := ld.X.(*ssa.FieldAddr); ok && an.FieldAddrName(fa2) == name && r.e.key(fa2.X) == r.e.key(a.X) {
+					if fa2, ok := ld.X.(*ssa.FieldAddr); ok && an.FieldAddrName(fa2) == name && r.key(fa2.X) == r.key(a.X) {
 						keepLen = true
 					}
 				}
@@ -885,7 +917,7 @@ func (r *pfRun) valueNonNil(v ssa.Value, st *pfState) bool {
 	if _, ok := v.(*ssa.MakeInterface); ok {
 		return true
 	}
-	return st.nonNil[r.e.key(v)]
+	return st.nonNil[r.key(v)]
 }
 
 // doCallKills removes facts invalidated by what the callee may store.
@@ -936,15 +968,15 @@ func (r *pfRun) applySummary(st *pfState, call *ssa.Call) {
 	subst := map[string]string{}
 	for i, p := range f.Params {
 		if i < len(call.Common().Args) {
-			subst[p.Name()] = r.e.key(call.Common().Args[i])
+			subst[p.Name()] = r.key(call.Common().Args[i])
 		}
 	}
 	r.instantiate(st, sum.facts, subst)
 	for i := range sum.resNonNil {
 		if f.Signature.Results().Len() == 1 {
-			st.nonNil[r.e.key(call)] = true
+			st.nonNil[r.key(call)] = true
 		} else {
-			st.nonNil[fmt.Sprintf("%s#%d", r.e.key(call), i)] = true
+			st.nonNil[fmt.Sprintf("%s#%d", r.key(call), i)] = true
 		}
 	}
 }
